@@ -117,6 +117,7 @@ pub open spec fn intersects(r: ZoomRecord, chrom: u32, start: u32, end: u32) -> 
 }
 
 //@extract fn bigtools/src/bbi/bbiread.rs get_zoom_block_values
+//@rule R16
 //@rule R6 min=1
 //@rule R8
 //@sub /<B: BBIRead>\(\s*bbifile: &mut B,\s*block: Block,\s*known_offset: &mut u64,/ => (data: Vec<u8>, endianness: Endianness, min=1
